@@ -38,6 +38,22 @@ claim("C15", "Coq proof (each narrowing site = explicit range test; every head w
       "Theorems over all integers: label / registry label / timestamp / nonce decode exactly iff in the i64 range and give OutOfRangeIntegerValue otherwise, key-data-length likewise for u64; byte level: all head widths and both bignum spellings of an integer decode to the same value, and every CBOR integer round-trips. The implementation is run on the +-1 lattice around 0, 23/24, 2^8, 2^16, 2^32, 2^63, 2^64 in every width at every interpreting position with exact expected outcomes computed independently.",
       COMMON_NOTE, "DESIGN.md 7 (C15)")
 
+
+_ACC = ("Coq proof of accept-iff against a declarative order-insensitive specification (lookup under each label; CDDL-shaped acceptors) "
+        "+ structured correspondence (valid / single-fault / multi-fault / duplicate / every-kind-per-slot generators, several encodings per value)")
+claim("C08", _ACC,
+      "Theorem: for every CBOR value, the header decoder returns Ok h exactly when the declarative header_spec accepts with the same h (typed fields = lookups, extras in wire order, IV/Partial-IV exclusion, counter-signature shapes), at every nesting level; the sequential early-exit decoder with its seen-set is proved equivalent to key normalisation + distinctness + per-field shapes. The implementation is compared with the proved model on generated maps (each rule violated at each position, both IV orders, all content-type palettes) in several encodings and carriers.",
+      COMMON_NOTE + " Unicode White_Space recognition (str::trim) is shared between model and spec and is tied to the implementation by the content-type palettes.", "DESIGN.md 7 (C08)")
+claim("C09", _ACC,
+      "Theorems: each of the eight message decoders returns Ok m exactly when the CDDL-shaped acceptor (exact arity, bstr that is empty or exactly one encoded header map, header map, bstr/nil, bstr, nested arrays decoded by the same rules) returns m; arities regenerated from the source are pinned to 4,4,3,5,4,4,3,3|4. Implementation vs model on arrays of arity 0..7 with every CBOR kind in every slot, nested recipients/signatures, and the same bytes decoded as all eight types.",
+      COMMON_NOTE, "DESIGN.md 7 (C09)")
+claim("C10", _ACC,
+      "Theorems: CoseKey / CoseKeySet decoders return Ok exactly when key_spec / keyset_spec accept with the same value (kty mandatory, registered and not Reserved or text; key_ops non-empty, distinct, collected as the sorted set; extras in wire order). Implementation vs model on generated key maps (kty anywhere / absent / reserved / unregistered; repeated integer and text operations) in two encodings.",
+      COMMON_NOTE, "DESIGN.md 7 (C10)")
+claim("C18", _ACC + "; round trip proved for claims sets; KDF contexts observed through to_vec (private fields)",
+      "Theorems: ClaimsSet, PartyInfo, SuppPubInfo and CoseKdfContext decoders accept exactly what their declarative specs accept, with the same field values; a well-formed claims set encodes to a map that decodes back to it. Encoding of well-formed values of the four types is compared with an independent Python encoder and decoded back on the implementation.",
+      COMMON_NOTE, "DESIGN.md 7 (C18)")
+
 def main():
     props = sorted(TITLES)
     checks = []
